@@ -49,7 +49,10 @@ let oracle_of (vs : Sexp.t list) : nat -> (n * (n -> n)) =
   let tbl = Array.of_list (List.map (function
       | Sexp.List (Sexp.Atom "arr" :: _ :: _ :: vals) ->
           let a = Array.of_list (List.map num vals) in
-          (N0, (fun i -> let k = int_of_n i in if k < Array.length a then a.(k) else N0))
+          (* total on every N: the extracted machine also applies array values to indices it then discards
+             (strict evaluation of [run_node] in [Model.step]), and those need not fit an OCaml int *)
+          let len = n_of_int (Array.length a) in
+          (N0, (fun i -> if N.ltb i len then a.(int_of_n i) else N0))
       | x -> (num x, (fun _ -> N0))) vs) in
   fun pos -> let k = int_of_nat pos in if k < Array.length tbl then tbl.(k) else (N0, (fun _ -> N0))
 
@@ -78,38 +81,6 @@ let parse_op (x : Sexp.t) : pop =
   | Sexp.List [Sexp.Atom "restore"; i; _id; r] -> { o = ORestore (num i); kind = "restore"; impl = r; det_differs = false; det_crashed = false }
   | _ -> raise (Sexp.Parse_error ("bad op " ^ Sexp.to_string x))
 
-(* ---- Labeler for the recorded finding "baa shift_left by a non-zero multiple of 64 does not mask the
-   most significant word" (baa 0.19.3 src/bv/arithmetic.rs:351: mask_msb only if shift % 64 > 0).
-   Untrusted OCaml, used ONLY to attach a stable key to a failure: a history is "tainted" from the first
-   operation on in which the simulator evaluates a BVShiftLeft node of width w (w > 64, w mod 64 <> 0) by
-   an amount b (0 < b < w, b mod 64 = 0) whose unmasked result has a bit at a position >= w, i.e. exactly the
-   evaluations in which baa returns a non-canonical value.  Operand values are taken from the specification. *)
-let n64 = n_of_int 64
-let shl_leaks (rho : env) (a : expr) (b : expr) (w : n) : bool =
-  let wi = int_of_n w in
-  wi > 64 && wi mod 64 <> 0 &&
-  (let bv = ebv rho b and av = ebv rho a in
-   N.ltb bv w && bv <> N0 && N.modulo bv n64 = N0 &&
-   (let nbits = n_of_int (64 * ((wi + 63) / 64)) in
-    let unmasked = N.modulo (N.shiftl av bv) (N.pow n_two nbits) in
-    not (N.ltb unmasked (N.pow n_two w))))
-let rec evaluates_leaking_shl (rho : env) (e : expr) : bool =
-  (match e with BVShiftLeft (a, b, w) -> shl_leaks rho a b w | _ -> false)
-  || List.exists (evaluates_leaking_shl rho) (children e)
-let op_taints (sy : sys) (rho : env) (o : op) : bool =
-  match o with
-  | OGet e -> evaluates_leaking_shl rho e
-  | OStep -> List.exists (fun st -> match st.st_next with Some e -> evaluates_leaking_shl rho e | None -> false) sy.s_states
-  | OInit k ->
-      (* sequential, as init_seq *)
-      let r = ref (oracle_env sy k) and t = ref false in
-      List.iter (fun st -> match st.st_init with
-          | Some e -> if evaluates_leaking_shl !r e then t := true; r := assign !r st.st_sym !r e
-          | None -> ()) sy.s_states;
-      !t
-  | _ -> false
-let shl_key = "baa-shl-by-multiple-of-64-msb-not-masked"
-
 let root_tag (e : expr) : string =
   match sexp_of_expr e with Sexp.List (Sexp.Atom t :: _) -> t | _ -> "?"
 
@@ -124,7 +95,6 @@ let handle (x : Sexp.t) : string =
   let last_mut = ref "start" in
   let verdict = ref None in            (* (status, key, detail) of the first disagreement *)
   let soft_verdict = ref None in
-  let tainted = ref false in
   let unmodelled = ref false in
   let n = ref 0 in
   let first = ref true in
@@ -142,7 +112,6 @@ let handle (x : Sexp.t) : string =
            | Unmodelled -> None in
          let spec =
            if !dom then begin
-             if (not !tainted) && op_taints sy (!ss).cur p.o then tainted := true;
              let (s', b) = spec_exec sy !ss p.o in
              ss := s'; Some (show_sobs b)
            end else None in
@@ -156,8 +125,7 @@ let handle (x : Sexp.t) : string =
                 verdict := Some ("fail", "panic-reading-back-after-random-init", where); raise Exit
               end;
               if impl <> sp then begin
-                let key = if !tainted then shl_key
-                  else if impl = "(panic)" then "panic@" ^ loc else Printf.sprintf "value:%s:after-%s" what !last_mut in
+                let key = if impl = "(panic)" then "panic@" ^ loc else Printf.sprintf "value:%s:after-%s" what !last_mut in
                 (* the property speaks of the values read (and of not crashing); the numbering of snapshot ids
                    and the step counter are compared as correspondence only *)
                 let soft = impl <> "(panic)" && (p.kind = "count" || p.kind = "snapshot") in
